@@ -553,6 +553,17 @@ impl<'a, 'b> Mul<&'b Number> for &'a Number {
     type Output = Option<Number>;
 
     fn mul(self, other: &Number) -> Self::Output {
+        // Products add the dimension exponents, which are machine
+        // integers: a long enough history of `ans ans` doubles them
+        // until they overflow. Keep them far away from that.
+        for (dim, power) in self.unit.iter() {
+            if let Some(other_power) = other.unit.get(dim) {
+                match power.checked_add(*other_power) {
+                    Some(sum) if sum.abs() < 1 << 61 => (),
+                    _ => return None,
+                }
+            }
+        }
         Some(Number {
             value: &self.value * &other.value,
             unit: &self.unit * &other.unit,
